@@ -16,7 +16,7 @@ for mp in sorted(glob.glob(os.path.join(HERE, "..", "seeded", "*", "meta.json"))
                 break
     rows.append("| %s | %s | %s | %s | %s / %s | %s |" % (
         d, m.get("property"), title.replace("|", "\\|"), v.get("baseline_tests_with_change", "?"),
-        v.get("demo_without_change_exit", "?"), v.get("demo_with_change_exit", "?"), " ".join(v.get("caught_by", [])) or "-"))
+        v.get("demo_without_change_exit", "?"), v.get("demo_with_change_exit", "?"), (" ".join(v.get("caught_by", [])) or "-") if not m.get("not_claimed") else "not claimed: " + m["not_claimed"][:160].replace("|", "/")))
 with open(os.path.join(HERE, "..", "seeded", "INDEX.md"), "w", encoding="utf-8") as f:
     f.write("# Seeded changes (written by independent sub-agents; re-verified by selftest/run_mutants.py --write-meta)\n\n")
     f.write("Columns: directory, property it breaks, first line of the author's notes, baseline tests with the change, demo exit code without / with the change, checks (quick tier) that reported a VIOLATION.\n\n")
